@@ -24,7 +24,7 @@ import (
 
 var profC20 = Profile{
 	MaxProcs: 5, MaxItems: 3, Bufsizes: []int{0, 1, 2}, MaxSlots: 5,
-	Params: true, MultiOut: true, FanIn: true, FanOut: true, TwoSources: true, Zip: true, ParamSrc: true, Joins: true, EmptyOuts: true,
+	Params: true, MultiOut: true, FanIn: true, FanOut: true, TwoSources: true, Zip: true, ParamSrc: true, Joins: true, EmptyOuts: true, Taggers: true,
 }
 
 func exportTree(root *simrt.Inode, dir string, only func(path string) bool) error {
@@ -129,6 +129,9 @@ func init() {
 			if c.Tape.Choose(simrt.StGen, 6, 0) == 1 {
 				return directAuditCase(c, cli)
 			}
+			if c.Tape.Choose(simrt.StGen, 10, 0) == 1 {
+				return mergedRunsCase(c, cli)
+			}
 			w := Generate(c.Tape, tierProfile(profC20, c.Tier))
 			for i := range w.Nodes {
 				// some commands are pipelines whose first stage exits non-zero: fine for
@@ -201,6 +204,11 @@ func init() {
 					opts.GapNS = 600e9
 					opts2.TZOffset = 3600
 					c.Fault("time-zone-change")
+				} else if c.Tape.Choose(simrt.StGen, 2, 0) == 1 {
+					// the second program is started right after the first one ended:
+					// within the same wall-clock second
+					opts.GapNS = 1000
+					c.Fault("runs-within-one-second")
 				}
 				inc1 := RunInc(&w1, c.Tape, nil, 0, opts)
 				c.Absorb(inc1)
@@ -324,6 +332,15 @@ func clip3(b []byte) string {
 // the lineage (read independently from the JSON). Returns the generated Bash
 // script.
 func convertAndCheck(cli, dir, target string, recs map[string]*flatRec) (Verdict, []byte) {
+	// earlier, longer reports already sit at the output paths: the new reports
+	// must replace them, not be written over their beginning
+	var st strings.Builder
+	for i := 0; i < 3000; i++ {
+		fmt.Fprintf(&st, "<tr><td><strong>stale%d</strong> / <a name=\"staleid%012d\"\nID: & staleid%012d \\\\\nproc=$(printf '%%-32s' \"staleproc%d\")\n", i, i, i, i)
+	}
+	for _, f := range []string{"report.html", "report.tex", "report.sh"} {
+		os.WriteFile(filepath.Join(dir, f), []byte(st.String()), 0666)
+	}
 	eq := map[int64]int{}
 	for _, r := range recs {
 		eq[r.Start.UnixNano()]++
@@ -521,5 +538,99 @@ func directAuditCase(c *Case, cli string) Verdict {
 		return Inconclusive("write: %v", err)
 	}
 	v, _ := convertAndCheck(cli, dir, "direct.out", flat)
+	return v
+}
+
+// mergedRunsCase: two structurally identical workflows are run as separate
+// programs one right after the other (per-sample runs started in a loop:
+// possibly within one wall-clock second), a third program merges their
+// results. The merged file's lineage holds the records of both earlier runs,
+// loaded from disk: every one of them must be listed exactly once.
+func mergedRunsCase(c *Case, cli string) Verdict {
+	t := c.Tape
+	depth := 1 + t.Choose(simrt.StGen, 3, 0)
+	gran := []int64{0, 1e6}[t.Choose(simrt.StGen, 2, 0)]
+	chain := func(tag string) (*WF, string) {
+		w := &WF{Name: "wf" + tag, Sources: map[string]string{}, MaxTasks: 2, Bufsize: 0}
+		e := Edge{srcNode(w, "src"+tag, 1, ""), "out"}
+		last := ""
+		for i := 0; i < depth; i++ {
+			name := fmt.Sprintf("p%s%d", tag, i)
+			ni := oneToOne(w, name, e)
+			e = Edge{ni, "o0"}
+			last = name
+		}
+		ex := Eval(w)
+		out := ""
+		for _, tk := range ex.Tasks {
+			if tk.Proc == last {
+				out = tk.Outs["o0"]
+			}
+		}
+		return w, out
+	}
+	wA, outA := chain("a")
+	wB, outB := chain("b")
+	opts := IncOpts{KillAt: -1, Strategy: strategyOf(t), Trace: c.Trace, ClockGran: gran, MinDur: gran, GapNS: 1000}
+	c.Fault("runs-within-one-second")
+	incA := RunInc(wA, t, nil, 0, opts)
+	c.Absorb(incA)
+	if v := flowOracle(incA, Eval(wA)); v.Status != "ok" {
+		return foreign(v)
+	}
+	// the second program runs in the same directory (its own source file is put there first)
+	root := incA.Sim.FS.Snapshot()
+	sB, _ := freshFS(c, wB)
+	for p := range wB.Sources {
+		if n := simrt.Find(sB.FS.Root, Abs(p)); n != nil {
+			simrt.Find(root, "/work").Ents[baseName(p)] = n
+		}
+	}
+	opts.Strategy = strategyOf(t)
+	incB := RunInc(wB, t, root, incA.Sim.FS.NextIno+100, opts)
+	c.Absorb(incB)
+	if v, ok := inconclusiveEnd(incB); ok {
+		return v
+	}
+	if !completedOK(incB) {
+		return Skipped(Viol("no-completion", "", "second program: %s", endDesc(incB)))
+	}
+	wM := &WF{Name: "wfm", Sources: map[string]string{}, MaxTasks: 2}
+	sa := addNode(wM, Node{Name: "ina", Kind: KFileSrc, Files: []string{outA}})
+	sb := addNode(wM, Node{Name: "inb", Kind: KFileSrc, Files: []string{outB}})
+	zipConsumer(wM, "merge", []Edge{{sa, "out"}, {sb, "out"}}, []string{"a", "b"})
+	opts.Strategy = strategyOf(t)
+	opts.GapNS = 0
+	incM := RunInc(wM, t, incB.Sim.FS.Root, incB.Sim.FS.NextIno, opts)
+	c.Absorb(incM)
+	if v, ok := inconclusiveEnd(incM); ok {
+		return v
+	}
+	if !completedOK(incM) {
+		return Skipped(Viol("no-completion", "", "merging program: %s", endDesc(incM)))
+	}
+	target := baseName(outA) + "." + baseName(outB) + ".merge.o0"
+	c.Sample = fmt.Sprintf("two programs of depth %d run back to back, a third merges %s and %s (clock granularity %d ns)", depth, outA, outB, gran)
+	final := incM.Sim.FS.Root
+	rec, err := readAudit(final, Abs(target))
+	if err != nil {
+		return Viol("audit-unreadable", "", "%v", err)
+	}
+	recs := map[string]*flatRec{}
+	clash := ""
+	flattenAudit(rec, recs, &clash)
+	if clash != "" {
+		return Viol("record-id-collision", "id-collision", "%s", clash)
+	}
+	c.Tasks = max(c.Tasks, 2)
+	dir, err := os.MkdirTemp("", "verif-c20m.")
+	if err != nil {
+		return Inconclusive("mktemp: %v", err)
+	}
+	defer os.RemoveAll(dir)
+	if err := exportTree(final, dir, nil); err != nil {
+		return Inconclusive("export: %v", err)
+	}
+	v, _ := convertAndCheck(cli, dir, target, recs)
 	return v
 }
